@@ -8,7 +8,7 @@
    A walk is a list of (node, side through which the node is entered); Left = the node is read forward. *)
 From Coq Require Import NArith ZArith List Bool Arith.
 From DBG Require Import Spec.Dna Spec.GraphIndex Packed.ExtsModel Algo.Compress Algo.GraphModel Spec.EdgeSpec
-  Check.EdgeCheck Proofs.GraphQueryProofs Proofs.WalkProofs Proofs.PruneProofs Proofs.EdgeCheckProofs Proofs.C03Examples.
+  Check.EdgeCheck Proofs.GraphQueryProofs Proofs.WalkProofs Proofs.PruneProofs Proofs.EdgeCheckProofs Proofs.ValidGraphProofs Proofs.C03Examples.
 Import ListNotations.
 Local Open Scope nat_scope.
 
@@ -55,6 +55,12 @@ Theorem C03_edges_symmetric : forall (D : Type) (K : nat) (stranded : bool) (g :
     exists s' t' f', In (u, s', f') (edges_of D K stranded g v t') /\
       (t' = t \/ pal_single D K stranded g v) /\ (s' = s \/ pal_single D K stranded g u) /\ f' = dir_eqb t' s'.
 Proof. exact edges_symmetric. Qed.
+
+(* link to C01: the end conditions of graph_ok follow from the partition property of compress_kmers outputs
+   (every k-mer, canonical when unstranded, occurs exactly once among all node windows) *)
+Theorem C03_kmers_once_ends_ok : forall (D : Type) (K : nat) (stranded : bool) (g : graph D),
+  wf_graph D K g -> kmers_once D K stranded g -> ends_ok D K stranded g.
+Proof. exact kmers_once_ends_ok. Qed.
 
 (* the checkers run on every implementation graph / reported edge list *)
 Theorem C03_chk_graph_ok_sound : forall (D : Type) (K : nat) (stranded : bool) (g : graph D),
@@ -201,6 +207,7 @@ Print Assumptions C03_find_link_sound.
 Print Assumptions C03_find_link_none.
 Print Assumptions C03_edges_overlap.
 Print Assumptions C03_edges_symmetric.
+Print Assumptions C03_kmers_once_ends_ok.
 Print Assumptions C03_chk_graph_ok_sound.
 Print Assumptions C03_chk_valid_graph_sound.
 Print Assumptions C03_chk_edges_overlap_iff.
